@@ -195,15 +195,20 @@ def run(ctx: Ctx):
                         bad.append(norm(n))
         ctx.check(not bad, "R05.c", f"src/gotranx/{short}::method::no-store-through-inputs", "method skeleton has no store through states/parameters", f"{short} method template writes through an input: {bad}", sk.func.where())
     # python backend: values_type of the Func tuples must allocate
+    from .c04 import func_tuple as _ft0
+
     for qn in ("PythonCodeGenerator._rhs_arguments", "PythonCodeGenerator._scheme_arguments"):
         f = sm.func("codegen/python.py", qn)
-        calls = [c for c in find_calls(f.node, "Func")]
-        ctx.require(calls, f"{qn} no longer builds a Func tuple")
-        vt = const_str(call_kw(calls[0], "values_type")) or ""
-        rn = const_str(call_kw(calls[0], "return_name")) or ""
+        kw, v_ = _ft0(ctx, f)
+        if kw is None:
+            ctx.undecided("R05.c", f.key("values_type"), f"{qn} does not return a Func(...) tuple that is understood ({_av0.show(v_)[:80]})", f.where())
+            continue
+        vtv, rnv = kw.get("values_type"), kw.get("return_name")
+        vt = vtv[1] if vtv is not None and vtv[0] == "c" and isinstance(vtv[1], str) else ""
+        rn = rnv[1] if rnv is not None and rnv[0] == "c" and isinstance(rnv[1], str) else ""
         allocs = vt.startswith(("numpy.zeros", "numpy.empty", "numpy.full"))
-        ctx.check(allocs, "R05.c", f.key("values_type"), f"result allocated by {vt}", f"{qn}: result array expression {vt!r} does not allocate a fresh array (inputs could be aliased and modified)", f.where(calls[0]))
-        ctx.check(rn == "values", "R05.c", f.key("return_name"), "result array is called 'values'", f"{qn}: return_name is {rn!r}; the templates and printers write to 'values'", f.where(calls[0]))
+        ctx.check(allocs, "R05.c", f.key("values_type"), f"result allocated by {vt}", f"{qn}: result array expression {vt!r} does not allocate a fresh array (inputs could be aliased and modified)", f.where())
+        ctx.check(rn == "values", "R05.c", f.key("return_name"), "result array is called 'values'", f"{qn}: return_name is {rn!r}; the templates and printers write to 'values'", f.where())
     # the scheme writes to the array that is returned
     kw_name = call_kw([c for c in ast.walk(cg.node) if isinstance(c, ast.Call) and isinstance(c.func, ast.Name) and c.func.id == fparam][0], "name")
     kw_ret = call_kw(tcalls[0], "return_name")
